@@ -83,7 +83,7 @@ Proof.
   unfold len_ok.
   induction f as [|f IHf];
   induction e as [a|c|c|a IHa b IHb|a IHa b IHb|a IHa b IHb|a IHa b IHb|p IHp|p IHp|p IHp
-                  |sp IHsp p IHp|sp IHsp p IHp|p IHp|l p IHp|p IHp pat|p IHp pat|n];
+                  |sp IHsp p IHp|sp IHsp p IHp|p IHp|l p IHp|p IHp pat|p IHp pat|q1 q2 p IHp|n];
   intros s t r H; rewrite denote_eq in H; cbn [den1 callnt bind] in H.
   all: try (destruct (prefix a s) eqn:E; [inv_ok H; apply prefix_len in E; lia|discriminate]).
   all: try (pose proof (span_len (eval c) s) as L; destruct (span (eval c) s) as [x y]; cbn [fst snd] in L;
@@ -104,6 +104,7 @@ Proof.
   all: try (apply IHp in Ep; destruct (find_sub pat (consumed s rp)) as [i|]; inv_ok H; [|lia];
             rewrite skipn_length; lia).
   all: try (apply IHp in Ep; destruct (ci_reject pat (consumed s rp)); [discriminate|]; inv_ok H; lia).
+  all: try (apply IHp in Ep; destruct (verify_eq q1 q2 tp); [|discriminate]; inv_ok H; cbn [snd]; lia).
   eapply IHf; eauto.
 Qed.
 
@@ -118,7 +119,7 @@ Proof.
   destruct C as (Cn & _ & _).
   induction f as [|f IHf];
   induction e as [a|c|c|a IHa b IHb|a IHa b IHb|a IHa b IHb|a IHa b IHb|p IHp|p IHp|p IHp
-                  |sp IHsp p IHp|sp IHsp p IHp|p IHp|l p IHp|p IHp pat|p IHp pat|n];
+                  |sp IHsp p IHp|sp IHsp p IHp|p IHp|l p IHp|p IHp pat|p IHp pat|q1 q2 p IHp|n];
   intros s t r H L; rewrite denote_eq in H; cbn [den1 callnt bind] in H; cbn [Peg.enull]; try reflexivity.
   all: try (destruct a as [|x a]; [reflexivity|]; destruct (prefix (x :: a) s) eqn:E;
             [inv_ok H; apply prefix_len in E; cbn [length] in E; lia|discriminate]).
@@ -138,6 +139,7 @@ Proof.
   all: try (inv_ok H; eapply IHp; eauto).
   all: try discriminate.
   all: try (destruct (ci_reject pat (consumed s rp)); [discriminate|]; inv_ok H; eapply IHp; eauto).
+  all: try (destruct (verify_eq q1 q2 tp); [|discriminate]; inv_ok H; eapply IHp; eauto).
   apply Cn. eapply IHf; eauto.
 Qed.
 
@@ -180,7 +182,7 @@ Proof.
   induction rk as [rk IHrk] using lt_wf_ind.
   intros f;
   induction e as [a|c|c|a IHa b IHb|a IHa b IHb|a IHa b IHb|a IHa b IHb|p IHp|p IHp|p IHp
-                  |sp IHsp p IHp|sp IHsp p IHp|p IHp|l p IHp|p IHp pat|p IHp pat|n];
+                  |sp IHsp p IHp|sp IHsp p IHp|p IHp|l p IHp|p IHp pat|p IHp pat|q1 q2 p IHp|n];
   intros s Hs Hfirst Hf; rewrite denote_eq; cbn [den1 callnt].
   - destruct (prefix a s); discriminate.
   - destruct (span (eval c) s); discriminate.
@@ -263,6 +265,11 @@ Proof.
   - (* TakeExcept *)
     destruct (denote (S f) p s) as [[tp rp]| |] eqn:Ep; cbn [bind fst snd].
     + destruct (ci_reject pat (consumed s rp)); discriminate.
+    + discriminate.
+    + exfalso. revert Ep. apply IHp; auto.
+  - (* VerifyEq *)
+    destruct (denote (S f) p s) as [[tp rp]| |] eqn:Ep; cbn [bind fst snd].
+    + destruct (verify_eq q1 q2 tp); discriminate.
     + discriminate.
     + exfalso. revert Ep. apply IHp; auto.
   - (* NT n *)
